@@ -704,7 +704,13 @@ impl<Front: SocketHandler> ConnectionH1<Front> {
                     if let StreamState::Linked(token) = old_state {
                         remove_backend_stream(&mut context.backend_streams, token, stream_id);
                     }
-                    if stream.context.keep_alive_frontend {
+                    // RFC 9112 §9.3: a final response written before the whole
+                    // request was received (early 401/413 from the backend, a
+                    // default answer on a request with a body) leaves the rest
+                    // of that body on the connection; it must not be parsed as
+                    // the next request, so the connection cannot be kept.
+                    let request_complete = stream.front.is_terminated();
+                    if stream.context.keep_alive_frontend && request_complete {
                         self.timeout_container.reset();
                         if let StreamState::Linked(token) = old_state {
                             endpoint.end_stream(token, stream_id, context);
